@@ -222,6 +222,14 @@ def configs(t):
         out.append(base(f'duplicate-{st}', st))
     for rfs in ('RESTART_PROCESS', 'STOP_APPLICATION', 'RESTART_APPLICATION'):
         out.append(base(f'duplicate-RUNNING_FAILURE-{rfs}', 'RUNNING_FAILURE', rfs=rfs))
+    # the instance whose copy is being stopped is lost while the copy is STOPPING (slow stop)
+    quiet = [['tick', 0], ['tick', 1], ['tick', 2]] * 3
+    out.append(base('duplicate-INFANTICIDE-loss-while-stopping', 'INFANTICIDE', extra_groups={}, watch=['A:a'],
+                    setup=[['rpc', 0, 'start_process', ['CONFIG', 'A:a', '', False]]] + quiet,
+                    user_events=[['ustart', 2, 'A:a']], behaviours=['run'], F=1, faults=['crash'], crashable=[2], T=3, K=12, cost=9))
+    out.append(base('duplicate-SENICIDE-loss-while-stopping', 'SENICIDE', extra_groups={}, watch=['A:a'],
+                    setup=[['ustart', 2, 'A:a']] + quiet,
+                    user_events=[['ustart', 1, 'A:a']], behaviours=['run'], F=1, faults=['crash'], crashable=[2], T=3, K=12, cost=9))
     # two simultaneous conflicts and a third copy
     two_setup = [['rpc', 0, 'start_process', ['CONFIG', 'A:a', '', False]],
                  ['rpc', 0, 'start_process', ['CONFIG', 'A:b', '', False]]]
